@@ -44,6 +44,7 @@ pub struct Out {
     pub attributed: usize,
     pub full_opening: bool,
     pub bad: Vec<(String, String)>,
+    pub precondition: Option<&'static str>,
 }
 
 struct Pool<F: Field> {
@@ -202,8 +203,10 @@ pub fn check_program<G: Cv>(env: &Env<G>, prog: &Program, seed: u64) -> Out {
     let steps = expected_steps_ordered::<G>(prog, &run.comms, &parts, &run.ctx.closure_order);
     let matched = match run_monitor(&steps, &mev) {
         Ok(m) => m,
-        Err(e) => {
-            out.bad.push(("transcript has the protocol's structure (needed to attribute draws)".into(), e));
+        Err(_) => {
+            // the run does not have the protocol's structure: C06 reports that; without the
+            // challenges the draws cannot be attributed
+            out.precondition = Some("transcript structure differs from the protocol (C06's business): attribution skipped");
             return out;
         }
     };
@@ -245,8 +248,18 @@ pub fn check_program<G: Cv>(env: &Env<G>, prog: &Program, seed: u64) -> Out {
             None => out.bad.push((format!("{} = witness part + (fresh non-zero draw) * B_blinding", crate::proofparts::POINT_NAMES[*base + 1]), "no unused draw opens it".into())),
         }
     }
+    // the opening below assumes the proof was built for the statement the reference model holds
+    // (same flattened weights): that is the case iff the proof satisfies the reference relations
+    let consistent = {
+        let w = chal("w");
+        let ch = crate::refverify::Challenges { y, z, u, x, w, rounds: us.clone() };
+        crate::refverify::refverify::<G>(&parts, rc, &run.comms, &env.pc, &env.bp, &ch).accept()
+    };
+    if !consistent {
+        out.precondition = Some("the honest proof does not satisfy the reference relations (C01/C02/C03's business): full opening skipped");
+    }
     // ---- (2) masking vectors and everything built on them: only where the final scalars reveal l(x), r(x)
-    if padded <= 4 && out.bad.is_empty() {
+    if padded <= 4 && out.bad.is_empty() && consistent {
         out.full_opening = true;
         let (wl, wr, wo, wv, _wc) = rc.flatten(z);
         let yinv = y.inverse().unwrap();
@@ -449,6 +462,9 @@ pub fn main(o: &Opts) -> i32 {
                         rep.count("partial (witness commitments, distinctness, keying, seeds)", 1);
                     }
                     rep.count("draws", out.draws as u64);
+                    if let Some(why) = out.precondition {
+                        rep.count(&format!("precondition: {}", why), 1);
+                    }
                     for (e, ob) in out.bad {
                         let case = json!({"curve": curve, "program": p.name(), "check": e});
                         rep.count("violation", 1);
